@@ -232,6 +232,7 @@ func c03(c *an.Check) {
 			return ""
 		})
 	}
+	thoroughCallers(c, "certificate-chain identity", 0, []string{"crypto/tls", "transport/common/quic"}, fnPubKeyFromCertChain, an.R("transport/common/quic", "", "DetermineSessionIdentity"))
 	// NewLink callers (expected: quic transport + webrtc) hand over the session they handshook: listed for evidence
 	nlc := 0
 	for _, fn := range p.AllRepoFuncs() {
